@@ -2,6 +2,7 @@ SPECIFICATION WalkSpec
 CONSTANTS
   Thorough = TRUE
   Den3 = 8
+  DenA = 1
 INVARIANTS
   WalkInv
   WalkEmitInv
